@@ -5,7 +5,7 @@ Open Scope Z_scope.
 
 (* script kind and Go kind that denote the same sort of value *)
 Definition matching (v : sval) (k : gkind) : bool :=
-  match v, k with
+  match v, base_kind k with
   | SStr _, KString => true
   | SBool _, KBool => true
   | SInt _, (KInt | KInt8 | KInt16 | KInt32 | KInt64 | KUint | KUint8 | KUint16 | KUint32 | KUint64) => true
@@ -23,7 +23,7 @@ Definition same_float (a b : float) : bool :=
   end.
 (* the value exists in the Go kind *)
 Definition representable (lib : golib) (v : sval) (k : gkind) : bool :=
-  match v, k with
+  match v, base_kind k with
   | SInt z, _ => fits k z
   | SFloat f, KFloat32 => same_float (f32 lib f) f
   | _, _ => true
@@ -32,7 +32,7 @@ Definition representable (lib : golib) (v : sval) (k : gkind) : bool :=
    float64 beyond the float32 range.  (A float64 that merely needs rounding to float32 is
    convertible: it arrives as the nearest float32.) *)
 Definition unconvertible (lib : golib) (v : sval) (k : gkind) : bool :=
-  match v, k with
+  match v, base_kind k with
   | SInt z, _ => negb (fits k z)
   | SFloat f, KFloat32 => negb (is_inf f) && is_inf (f32 lib f)
   | _, _ => false
@@ -40,14 +40,14 @@ Definition unconvertible (lib : golib) (v : sval) (k : gkind) : bool :=
 (* the Go value of kind k that IS the script value *)
 Definition inject (k : gkind) (v : sval) : gval :=
   match v with
-  | SStr s => GStr s | SBool b => GBool b | SInt z => GNum k z | SFloat f => GFlt k f
+  | SStr s => GStr k s | SBool b => GBool k b | SInt z => GNum k z | SFloat f => GFlt k f
   | _ => GOth
   end.
 (* a Go result that exists as a script value: every string, bool, float; integers up to 2^63-1 *)
 Definition returnable (g : gval) : bool :=
   match g with GNum k z => fits k z && (z <=? maxint) | GOth => false | _ => true end.
 Definition project (g : gval) : sval :=
-  match g with GStr s => SStr s | GBool b => SBool b | GNum _ z => SInt z | GFlt _ f => SFloat f | GOth => SOther end.
+  match g with GStr _ s => SStr s | GBool _ b => SBool b | GNum _ z => SInt z | GFlt _ f => SFloat f | GOth => SOther end.
 
 Definition not_crash {A} (o : outcome A) : bool := match o with Crash => false | _ => true end.
 
@@ -55,9 +55,21 @@ Definition not_crash {A} (o : outcome A) : bool := match o with Crash => false |
    itself, carried by a Go value of kind k (a float64 at a float32 parameter arrives as the
    nearest float32) *)
 Definition arrive (lib : golib) (k : gkind) (v : sval) : gval :=
-  match v, k with
-  | SFloat f, KFloat32 => GFlt KFloat32 (f32 lib f)
+  match v, base_kind k with
+  | SFloat f, KFloat32 => GFlt k (f32 lib f)
   | _, _ => inject k v
   end.
 (* script ints are 64-bit *)
 Definition wf (v : sval) : bool := match v with SInt z => (minint <=? z) && (z <=? maxint) | _ => true end.
+(* a predeclared type (int8, string, ...), not a defined type over one *)
+Definition predeclared (k : gkind) : bool := match k with KNamed _ => false | _ => true end.
+(* Go values compared as values: same dynamic type, same payload (floats by same_float) *)
+Definition gval_same (a b : gval) : bool :=
+  match a, b with
+  | GStr t x, GStr t' y => kind_eqb t t' && String.eqb x y
+  | GBool t x, GBool t' y => kind_eqb t t' && Bool.eqb x y
+  | GNum t x, GNum t' y => kind_eqb t t' && (x =? y)
+  | GFlt t x, GFlt t' y => kind_eqb t t' && same_float x y
+  | GOth, GOth => true
+  | _, _ => false
+  end.
